@@ -9,6 +9,60 @@ package server
 //@ contract recvMsg
 //@   props C21
 
+// Property C24: collision detection must recognise the states the FSM really
+// stores (constructor/recogniser agreement), and the tie-break compares BGP
+// identifiers, then AS numbers (RFC 4271 6.8, RFC 6286).
+//@ lemma statesRecognised (fsm *FSM)
+//@   props C24
+//@   inline
+//@   ensures isOpenConfirmState(newOpenConfirmState(fsm))
+//@   ensures isEstablishedState(newEstablishedState(fsm))
+//@   ensures !isOpenConfirmState(newEstablishedState(fsm)) && !isEstablishedState(newOpenConfirmState(fsm))
+//@   ensures !isOpenConfirmState(newIdleState(fsm)) && !isEstablishedState(newIdleState(fsm))
+//@   ensures !isOpenConfirmState(newOpenSentState(fsm)) && !isEstablishedState(newOpenSentState(fsm))
+//@   ensures !isOpenConfirmState(newActiveState(fsm)) && !isEstablishedState(newActiveState(fsm))
+//@   ensures !isOpenConfirmState(newConnectState(fsm)) && !isEstablishedState(newConnectState(fsm))
+//@   ensures !isOpenConfirmState(newCeaseState()) && !isEstablishedState(newCeaseState())
+
+//@ contract (*peer).shouldCeaseOnCollision
+//@   props C24
+//@   requires callingFSM != nil && callingFSM.peer != nil
+//@   ensures p.routerID < callingFSM.neighborID ==> result
+//@   ensures p.routerID > callingFSM.neighborID ==> !result
+//@   ensures p.routerID == callingFSM.neighborID ==> result == (p.localASN < callingFSM.peer.peerASN)
+//@   modifies nothing
+
+// Property C36: a reload keeps a session running (and only swaps its filter
+// chains) only if no other session-affecting setting changed.
+//@ spec
+//@ func spec_sameAFC(a, b *AddressFamilyConfig) bool {
+//@ 	if a == nil || b == nil {
+//@ 		return a == nil && b == nil
+//@ 	}
+//@ 	return a.AddPathSend == b.AddPathSend && a.AddPathRecv == b.AddPathRecv && a.NextHopExtended == b.NextHopExtended
+//@ }
+//@ func spec_sameIP(a, b *bnet.IP) bool {
+//@ 	if a == nil || b == nil {
+//@ 		return a == nil && b == nil
+//@ 	}
+//@ 	return *a == *b
+//@ }
+//@ end
+
+//@ contract (*PeerConfig).NeedsRestart
+//@   props C36
+//@   requires x != nil
+//@   ensures !result ==> pc.TTL == x.TTL
+//@   ensures !result ==> spec_sameAFC(pc.IPv4, x.IPv4) && spec_sameAFC(pc.IPv6, x.IPv6)
+//@   ensures !result ==> pc.HoldTime == x.HoldTime && pc.KeepAlive == x.KeepAlive && pc.ReconnectInterval == x.ReconnectInterval
+//@   ensures !result ==> pc.LocalAS == x.LocalAS && pc.PeerAS == x.PeerAS && pc.RouterID == x.RouterID && pc.Passive == x.Passive
+//@   ensures !result ==> pc.RouteServerClient == x.RouteServerClient && pc.RouteReflectorClient == x.RouteReflectorClient && pc.RouteReflectorClusterID == x.RouteReflectorClusterID
+//@   ensures !result ==> pc.AdvertiseIPv4MultiProtocol == x.AdvertiseIPv4MultiProtocol
+//@   ensures !result ==> pc.PeerRole == x.PeerRole && pc.PeerRoleStrictMode == x.PeerRoleStrictMode
+//@   ensures !result ==> pc.AuthenticationKey == x.AuthenticationKey && pc.VRF == x.VRF
+//@   ensures !result ==> spec_sameIP(pc.LocalAddress, x.LocalAddress)
+//@   modifies nothing
+
 // Property C27: framing of received BMP messages never panics and never allocates
 // more than a stated maximum before the bytes have arrived.
 //@ contract recvBMPMsg
